@@ -298,6 +298,9 @@ def swapped_arguments(prog, mi):
     for fn in [n for n in ast.walk(mi.tree) if isinstance(n, ast.FunctionDef)]:
         for call in [c for c in ast.walk(fn) if isinstance(c, ast.Call) and isinstance(c.func, ast.Name) and c.func.id in callees]:
             cands = callees[call.func.id]
+            own = dict.get(mi.functions, call.func.id)
+            if own is not None:
+                cands = [(own, False)]          # a function of the same module is the one the bare name denotes
             if len(cands) != 1 or len(call.args) < 2:
                 continue
             callee, skip = cands[0]
